@@ -747,7 +747,36 @@ def ctor_request(tu):
     raise AnalysisBroken("%s: constructor's data-block allocation not found" % tu.cfg)
 
 
-def rule_fit(ck, rule="FIT"):
+class _CountingRec:
+    """obligations of sampled lists: counted (pass / exceeds / undecided), never reported"""
+
+    def __init__(self, rec, rule, tu):
+        self.rec, self.rule, self.tu = rec, rule, tu
+
+    def ob(self, rule, ok, sample=None):
+        self.rec.count("%s_sampled_%s" % (rule, "fits" if ok else "exceeds"))
+
+    def finding(self, rule, key, msg, **kw):
+        self.rec.note("%s on sampled list %s %s: %s" % (rule, self.tu.pl.name, [(p.kind, p.vt, p.align) for p in self.tu.pl.params], msg[:160]))
+
+    def broken(self, msg):
+        self.rec.count("%s_sampled_undecided" % self.rule)
+
+    def count(self, *a):
+        self.rec.count(*a)
+
+    def note(self, *a):
+        self.rec.note(*a)
+
+
+def _has_join(t):
+    """an unresolved join / flag / mask atom is left in t (its condition could not be decided or split on)"""
+    bad = []
+    walk_atoms(t, lambda a: bad.append(a) if a[0] in ("gamma", "b2i", "and") else None)
+    return bad
+
+
+def rule_fit(ck, rule="FIT", report=True):
     """varying-size lists: 'N elements whose payloads total at most B bytes fit into a vector constructed for (N, B)'.
     Decided as an induction over the appended elements with two per-element obligations, both on the summary of
     emplace_back for a symbolic element appended at a storage-aligned position:
@@ -756,9 +785,10 @@ def rule_fit(ck, rule="FIT"):
       FIT-last   extent <= T1 + payload                                 (the last element)
     Then the k-th element starts at most at (k-1)*S + (payload of its predecessors) and the n-th ends at most at
     T(n, total payload) <= T(n, B) <= the block."""
-    tu, rec = ck.tu, ck.rec
+    tu, rec0 = ck.tu, ck.rec
     if tu.pl.all_fixed_locator or not tu.has("w_ctor") or not tu.has("w_emplace_back_new"):
         return
+    rec = rec0 if report else _CountingRec(rec0, rule, tu)
     from .terms import mk_mul, mk_bin
     sea = tu.pl.sea
     csm = tu.S("w_ctor")
@@ -836,7 +866,7 @@ def rule_fit(ck, rule="FIT"):
         return
     results = {}
     bad = {}
-    for f0 in case_split([ext], base, max_cases=32):
+    for f0 in case_split([ext, Se, T1e], base, max_cases=64):
         f = f0.copy()
         f.add_cong(pre_end, sea)
         if f.infeasible():
@@ -853,7 +883,7 @@ def rule_fit(ck, rule="FIT"):
             rec.broken("%s %s: no feasible case for the appended element" % (tu.cfg, rule))
             return
         d_l_r = bad.get(name)
-        if d_l_r is not None and (has_unknown(d_l_r[0]) or fm_imprecise(d_l_r[0])):
+        if d_l_r is not None and (has_unknown(d_l_r[0]) or fm_imprecise(d_l_r[0]) or _has_join(d_l_r[0])):
             rec.broken("%s %s-%s: undecided: %s" % (tu.cfg, rule, name, show(d_l_r[0])[:200]))
             continue
         rec.ob("%s-%s" % (rule, name), results[name], {"config": tu.cfg, "witness": fn, "per_element_budget": show(Se)[:160], "first_element_budget": show(T1e)[:160],
